@@ -67,3 +67,25 @@ package search
 //@     ghostset ghostat(0, int(arg1), "mergedBlk") = 1
 //@   ensures [every-block-of-the-nested-result-is-merged] implies(searchToMerge != nil, forallkey(b, uint16, implies(old(haskey(searchToMerge.AllBlockStatus, b)), ghostat(0, int(b), "mergedBlk") == 1)))
 //@ end
+
+// C04 (latest()/earliest() of a time-bounded stats query): the time bounds that
+// segmentStatsWorker hands to the stats of a block are taken over the records
+// the query SELECTS — a record of a partially covered block that lies outside
+// the query's time range is skipped before it can move either bound.
+//@ func (*BlockRecordIterator).ShouldProcessRecord
+//@   props C04
+//@   requires bss != nil
+//@   pure
+//@ end
+//@ func segmentStatsWorker
+//@   props C04
+//@   assumecalleerequires
+//@   requires queryRange != nil
+//@   loop 2:
+//@     invariant [bounds-cover-selected-records-only] implies(!isBlkFullyEncosed && idx > 0, queryRange.StartEpochMs <= latestTs && latestTs <= queryRange.EndEpochMs && queryRange.StartEpochMs <= earliestTs && earliestTs <= queryRange.EndEpochMs)
+//@     invariant [bounds-untouched-before-the-first-selected-record] implies(idx == 0, latestTs == 0 && earliestTs == 18446744073709551615)
+//@     invariant idx >= 0
+//@   site call applySegmentStatsUsingDictEncoding #1:
+//@     assert [time-bounds-of-a-partially-covered-block-lie-inside-the-query-range] implies(!isBlkFullyEncosed && len(sortedMatchedRecs) > 0, queryRange.StartEpochMs <= latestTs && latestTs <= queryRange.EndEpochMs && queryRange.StartEpochMs <= earliestTs && earliestTs <= queryRange.EndEpochMs)
+//@     assert [no-selected-record-no-time-bounds] implies(len(sortedMatchedRecs) == 0, latestTs == 0 && earliestTs == 18446744073709551615)
+//@ end
